@@ -295,6 +295,11 @@ class Port_Matcher
         {
             if(strncmp(msg, fixed[i].c_str(), fixed[i].length()))
                 return false;
+            //a leaf's name must be the whole rest of the address,
+            //not just a prefix of it
+            if(fixed[i].empty() || fixed[i].back() != '/')
+                if(msg[fixed[i].length()])
+                    return false;
             if(arg_spec[i])
                 return rtosc_match_args(arg_spec[i], msg);
             else
